@@ -176,10 +176,10 @@ def _dump_one(args):
 def _digest(path):
     h = hashlib.sha256()
     d = os.path.dirname(path)
-    h.update(b"v3")
+    h.update(b"v4")
     for fn in [path] + sorted(os.path.join(d, x) for x in os.listdir(d) if x.endswith(".h")):
         with open(fn, "rb") as f:
-            h.update(fn.encode())
+            h.update(os.path.basename(fn).encode())
             h.update(f.read())
     h.update(py_include().encode())
     return h.hexdigest()[:32]
